@@ -1436,6 +1436,9 @@ func (x *Exec) execInstr(fr *frame, st *State, in ssa.Instruction) error {
 			// pointer to a whole heap cell (an escaping local of basic type): its reference is the pointer
 			xv = Val{T: xv.Loc.Ref, Typ: i.X.Type()}
 		}
+		if pt, ok := vc.absPtr(xv.Loc); ok {
+			xv = Val{T: pt, Typ: i.X.Type()}
+		}
 		if xv.Loc != nil {
 			return unsupported("interior pointer converted to interface")
 		}
@@ -1570,6 +1573,11 @@ func (x *Exec) execInstr(fr *frame, st *State, in ssa.Instruction) error {
 				st.ghost[k[3:]] = vc.bind("g", v.T)
 				applied = true
 			}
+		}
+		if !applied && x.fc != nil && x.fc.Opts["go-ignore"] != "" {
+			// the launched goroutine is outside the contract: it runs later / concurrently and is not
+			// verified; nothing it does is reflected (reported as an assumption below)
+			applied = true
 		}
 		if !applied {
 			return unsupported("go statement")
